@@ -245,8 +245,18 @@ def cli_case(draw):
         spec = draw(st.sampled_from(specs))
         sn = spec["seq"]
         k = int(spec["e"] * (len(sn) - sn.count("N")))
-        r = draw(st.integers(0, 5))
-        if r == 5:
+        r = draw(st.integers(0, 6))
+        if r == 6:
+            # the adapter with up to k+1 of its bases unreadable (N in the read counts as a mismatch unless
+            # --match-read-wildcards is given), preferably where the adapter has an A
+            mid = list(sn.replace("N", "A"))
+            cand = [i for i, c in enumerate(mid) if c == "A"] or list(range(len(mid)))
+            for _ in range(draw(st.integers(1, k + 1))):
+                mid[draw(st.sampled_from(cand))] = "N"
+            left = draw(st.text(alphabet="ACGT", max_size=4)) if spec["type"] in ("back", "suffix", "niback") else ""
+            right = draw(st.text(alphabet="ACGT", max_size=4)) if spec["type"] in ("front", "prefix", "rightmost") else ""
+            sc["reads"].append(left + "".join(mid) + right)
+        elif r == 5:
             # a near miss: the adapter with one edit more than it tolerates, placed where the type wants it
             mid = list(sn.replace("N", "A"))
             for _ in range(k + 1):
